@@ -126,6 +126,10 @@ func isPromVec(t types.Type) bool {
 }
 
 func runC20(c *Ctx) {
+	withInline(func() { runC20In(c) })
+}
+
+func runC20In(c *Ctx) {
 	newM := c.P.Func("lib/prom", "NewMetrics")
 	reg := c.P.Func("lib/prom", "Metrics.Register")
 	obs := c.P.Func("lib/prom", "Metrics.Observe")
